@@ -35,3 +35,21 @@ Proof.
   - eapply stream_fixed; eauto.
   - eapply stream_none_fixed; [|eassumption]. intros c Hin. apply Hc. assumption.
 Qed.
+
+(* Why names and barcodes must be identified per sample: if two samples' reads are given the same id
+   (tables keyed by the bare read name, as before /repo's fix ef2ae7a), the alignment of the first sample
+   receives the decision taken for the second sample's read, which is not the best haplotype for its own. *)
+Lemma bare_name_tables_refuted :
+  exists cfg samples a s0 r0,
+    nth_error samples 0 = Some s0 /\ snd s0 = [r0] /\ r_name r0 = a_name a /\
+    tag_aln cfg (prepare cfg samples) a = (Some 2, Some 107, Some 30) /\
+    decide (phaseinfo (fst s0)) (ploidy cfg) [r0] = Some (0%nat, 30, 7).
+Proof.
+  exists (mkCfg 2%nat false 20 false),
+         [([(10, false, Some (7, [1; 0]))], [mkRead 1 37 None [(10, 1, 30)]]);
+          ([(10, false, Some (107, [1; 0]))], [mkRead 1 37 None [(10, 0, 30)]])],
+         (mkAln 5 1 32 60 false false false None no_tags),
+         ([(10, false, Some (7, [1; 0]))], [mkRead 1 37 None [(10, 1, 30)]]),
+         (mkRead 1 37 None [(10, 1, 30)]).
+  vm_compute. repeat split.
+Qed.
